@@ -40,18 +40,16 @@ def parse_position_marker_arg(
 
         if len(decimal_parts) == 1:  # .XXXXX
             dec_part_raw_stripped = decimal_parts[0].rstrip("0")  # strip 0s off the decimal places
-            dec_part = int(dec_part_raw_stripped if dec_part_raw_stripped != "" else "0")
         elif len(decimal_parts) == 2:  # XXXXX.YYYYY
             # (the part in front of the point may be empty or just a sign: `.5`, `-.5`)
             pos = int(decimal_parts[0] if decimal_parts[0] not in ("", "-", "+") else decimal_parts[0] + "0")
             dec_part_raw_stripped = decimal_parts[1].rstrip("0")  # strip 0s off the decimal places
-            dec_part = int(dec_part_raw_stripped if dec_part_raw_stripped != "" else "0")
         else:
             raise SsbCompilerError("Logic error in decimal code for 'position marker arg'.")
 
-        if dec_part == 5:
+        if dec_part_raw_stripped == "5":
             offset = 2
-        elif dec_part == 0:
+        elif dec_part_raw_stripped == "":
             offset = 0
         else:
             raise SsbCompilerError(
